@@ -13,8 +13,8 @@ package main
 //          del         Delete RPC on "k" (synchronous)
 //          reload      close the swamp (flush) so that the next observation re-summons it from disk
 //     reply: T:<state> q=[guard queue, IDs relative to the case start] c=<ID counter, relative> v=<value|absent>
-//            state = F (fetched) | 1w (queued) | 1g (granted) | 2 (read) | 3 (written) | 4 (saved) |
-//                    5 r=<response> | blocked (its next action is not enabled)
+//            state = F (fetched) | 1w (queued) | 1g (granted) | 2 (read) | 3 (written) | 3w (saved, file writer pending) |
+//                    4 (saved) | 5 r=<response> by=<UpdatedBy of the response> | blocked (its next action is not enabled)
 // case N stress CFG    op: stress W K N — W goroutines × N increments (+1) over K keys through the gateway;
 //     reply: ok acked=<n> lost=<n> dup=<n> errors=<n>   (per key the responses must be exactly 1..n_k and the final value n_k)
 // case N mixed CFG     op: mixed W N SEED — W goroutines × N random set/inc/get on one key; the client-visible
@@ -67,6 +67,11 @@ func c09Gen(rng *rand.Rand, tier string, w *bufio.Writer) {
 	}
 	fmt.Fprintf(w, "case %d sched pN\nstep A\nstep B\nstep C\nstep B\nstep A\nstep A\nstep A\nstep A\nstep B\nstep B\nstep C\nstep B\nstep B\nstep C\nstep C\nstep C\nstep C\nstep C\n", c)
 	c++
+	// the response is built behind Save: A has saved, B takes the record and stamps its metadata, A answers
+	for _, cfg := range c09Cfgs {
+		fmt.Fprintf(w, "case %d sched %s\nstep A\nstep A\nstep A\nstep A\nstep B\nstep B\nstep A\nstep B\nstep B\nstep B\n", c, cfg)
+		c++
+	}
 	for _, cfg := range c09Cfgs {
 		fmt.Fprintf(w, "case %d sched %s\nfetch A\ndel\nstep A\nstep A\nstep A\nstep A\nstep A\nreload\n", c, cfg)
 		c++
@@ -80,19 +85,6 @@ func c09Gen(rng *rand.Rand, tier string, w *bufio.Writer) {
 		steps := 6 + rng.Intn(18)
 		for j := 0; j < steps; j++ {
 			t := rng.Intn(n)
-			if cfg == "p0" && pc[t] == 0 {
-				// immediate-write mode: the chronicler's own guard session inside Save must not queue behind
-				// a parked call (it would block that Save): start a call only when nobody is in front of its save
-				busy := false
-				for u := range pc {
-					if u != t && pc[u] >= 1 && pc[u] <= 3 {
-						busy = true
-					}
-				}
-				if busy {
-					continue
-				}
-			}
 			fmt.Fprintf(w, "step %s\n", c09Names[t])
 			if pc[t] < 5 {
 				pc[t]++ // upper bound (a blocked step does not advance); only used for the p0 constraint
@@ -107,6 +99,7 @@ func c09Gen(rng *rand.Rand, tier string, w *bufio.Writer) {
 		fmt.Fprintf(w, "case %d mixed %s\nmixed 3 4 %d\n", c, c09Cfgs[i%3], rng.Intn(1<<30))
 		c++
 	}
+	c09sGen(rng, tier, w, &c)
 }
 
 // ---------------------------------------------------------------- state
@@ -120,6 +113,7 @@ type c09Ev struct {
 type c09Resp struct {
 	val int64
 	err bool
+	by  string // Metadata.UpdatedBy of the response: every call stamps its own name under the guard
 }
 
 type c09Thread struct {
@@ -154,6 +148,7 @@ type c09State struct {
 	free    atomic.Bool
 	stopAt  atomic.Value // thread name that must park at inc.fetched
 	dead    bool
+	setx    bool // mode setx (harness/c09set.go)
 }
 
 func (st *c09State) get(n string) *c09Thread {
@@ -212,7 +207,7 @@ func (st *c09State) render(t *c09Thread, blocked bool) string {
 		state = "2"
 	case "inc.written":
 		state = "3"
-	case "writer.wait":
+	case "writer.wait", "save.released":
 		state = "3w"
 	case "inc.saved":
 		state = "4"
@@ -220,7 +215,7 @@ func (st *c09State) render(t *c09Thread, blocked bool) string {
 		if t.resp.err {
 			state = "5 r=ERR"
 		} else {
-			state = "5 r=" + strconv.FormatInt(t.resp.val, 10)
+			state = "5 r=" + strconv.FormatInt(t.resp.val, 10) + " by=" + t.resp.by
 		}
 	}
 	if blocked {
@@ -233,12 +228,16 @@ func (st *c09State) spawn(t *c09Thread) {
 	go func() {
 		st.threads.Register(t.name)
 		defer st.threads.Unregister()
-		resp, err := st.rig.GW.IncrementInt64(context.Background(), &hydrapb.IncrementInt64Request{IslandID: 1, SwampName: st.swamp, Key: "k", IncrementBy: t.d})
+		who := t.name
+		meta := &hydrapb.IncrementRequestMetadata{UpdatedBy: &who}
+		resp, err := st.rig.GW.IncrementInt64(context.Background(), &hydrapb.IncrementInt64Request{IslandID: 1, SwampName: st.swamp, Key: "k", IncrementBy: t.d,
+			SetIfExist: meta, SetIfNotExist: meta})
 		r := c09Resp{}
 		if err != nil || resp == nil {
 			r.err = true
 		} else {
 			r.val = resp.GetValue()
+			r.by = resp.GetMetadata().GetUpdatedBy()
 		}
 		st.done <- c09Done{th: t.name, resp: r}
 	}()
@@ -248,6 +247,7 @@ func (st *c09State) spawn(t *c09Thread) {
 // including a waiter that the last release made head of the guard queue.
 func (st *c09State) settle() bool {
 	deadline := time.After(c09StepTimeout)
+	quiet := false
 	for {
 		running := false
 		st.mu.Lock()
@@ -267,24 +267,66 @@ func (st *c09State) settle() bool {
 				}
 			}
 		}
-		st.mu.Unlock()
+		var startWriter *c09Thread
 		if !running {
-			return true
+			// a call parked right after its in-save release starts its file writer once no other writer is pending
+			pending := false
+			for _, t := range st.th {
+				if t.at == "writer.wait" || (t.at == "inc.written" && t.wgid != 0) {
+					pending = true
+				}
+			}
+			if !pending {
+				for _, n := range st.order {
+					if t := st.th[n]; t != nil && t.at == "save.released" && t.wgid == 0 {
+						startWriter = t
+						break
+					}
+				}
+			}
+			if startWriter != nil {
+				startWriter.running = true
+				startWriter.at = "inc.written"
+				startWriter.wgid = -1 // writer started; the session ID arrives with guard.enq
+				running = true
+			}
+		}
+		st.mu.Unlock()
+		if startWriter != nil {
+			startWriter.gate <- struct{}{}
+		}
+		var grace <-chan time.Time
+		if !running {
+			// nothing is known to be running: give a goroutine that was scheduled late a moment to report
+			if quiet {
+				return true
+			}
+			quiet = true
+			grace = time.After(40 * time.Millisecond)
+		} else {
+			quiet = false
 		}
 		select {
+		case <-grace:
+			continue
 		case ev := <-st.events:
+			quiet = false
 			t := st.get(ev.th)
+			if os.Getenv("C09_TRACE") != "" {
+				fmt.Fprintf(os.Stderr, "ev %s %s id=%d\n", ev.th, ev.name, ev.id)
+			}
 			if t == nil {
 				continue
 			}
 			switch ev.name {
 			case "guard.enq":
-				if t.gid == 0 {
+				if t.at == "" || t.at == "inc.fetched" {
+					// the call's own session; after a re-check failure it starts over on another object, whose
+					// guard then becomes the observed one (its ID counter starts at 0)
 					t.gid = ev.id
-					if st.g == nil {
-						if g, ok := ev.g.(guard.Guard); ok {
-							st.g = g
-						}
+					if g, ok := ev.g.(guard.Guard); ok && g != st.g {
+						st.g = g
+						st.c0 = 0
 					}
 				} else {
 					t.wgid = ev.id
@@ -295,10 +337,11 @@ func (st *c09State) settle() bool {
 				}
 				if t.wgid != 0 && t.at == "inc.written" {
 					t.at = "writer.wait"
+					t.running = false
 				} else if t.at == "" || t.at == "inc.fetched" {
 					t.at = "guard.wait"
+					t.running = false
 				}
-				t.running = false
 			case "guard.acq":
 				if t.at == "guard.wait" || t.at == "writer.wait" {
 					t.running = true
@@ -306,11 +349,12 @@ func (st *c09State) settle() bool {
 						t.at = "inc.written"
 					}
 				}
-			case "inc.fetched", "inc.acquired", "inc.read", "inc.written", "inc.saved":
+			case "inc.fetched", "inc.acquired", "inc.read", "inc.written", "inc.saved", "save.released":
 				t.at = ev.name
 				t.running = false
 			}
 		case d := <-st.done:
+			quiet = false
 			if t := st.get(d.th); t != nil {
 				t.at, t.resp, t.running = "done", d.resp, false
 			}
@@ -344,7 +388,7 @@ func (st *c09State) step(tn string, fetchOnly bool) string {
 		}
 		t.running = true
 		st.spawn(t)
-	case "guard.wait", "writer.wait", "done":
+	case "guard.wait", "writer.wait", "save.released", "done":
 		return st.render(t, true)
 	default:
 		if fetchOnly {
@@ -450,12 +494,37 @@ func (st *c09State) stress(writers, nkeys, per int) string {
 		go func(w int) {
 			defer wg.Done()
 			for i := 0; i < per; i++ {
-				k := fmt.Sprintf("s%d", (w+i)%nkeys)
-				resp, err := st.rig.GW.IncrementInt64(context.Background(), &hydrapb.IncrementInt64Request{IslandID: 1, SwampName: st.swamp, Key: k, IncrementBy: 1})
-				if err != nil || resp == nil || !resp.GetIsIncremented() {
+				ki := (w + i) % nkeys
+				k := fmt.Sprintf("s%d", ki)
+				// the Increment variants share one body shape but are ten separate functions: rotate them over the keys
+				var val int64
+				good := false
+				switch ki % 4 {
+				case 0:
+					resp, err := st.rig.GW.IncrementInt64(context.Background(), &hydrapb.IncrementInt64Request{IslandID: 1, SwampName: st.swamp, Key: k, IncrementBy: 1})
+					if err == nil && resp != nil && resp.GetIsIncremented() {
+						val, good = resp.GetValue(), true
+					}
+				case 1:
+					resp, err := st.rig.GW.IncrementUint32(context.Background(), &hydrapb.IncrementUint32Request{IslandID: 1, SwampName: st.swamp, Key: k, IncrementBy: 1})
+					if err == nil && resp != nil && resp.GetIsIncremented() {
+						val, good = int64(resp.GetValue()), true
+					}
+				case 2:
+					resp, err := st.rig.GW.IncrementUint64(context.Background(), &hydrapb.IncrementUint64Request{IslandID: 1, SwampName: st.swamp, Key: k, IncrementBy: 1})
+					if err == nil && resp != nil && resp.GetIsIncremented() {
+						val, good = int64(resp.GetValue()), true
+					}
+				default:
+					resp, err := st.rig.GW.IncrementFloat64(context.Background(), &hydrapb.IncrementFloat64Request{IslandID: 1, SwampName: st.swamp, Key: k, IncrementBy: 1})
+					if err == nil && resp != nil && resp.GetIsIncremented() {
+						val, good = int64(resp.GetValue()), true
+					}
+				}
+				if !good {
 					out <- res{key: k}
 				} else {
-					out <- res{key: k, val: resp.GetValue(), ok: true}
+					out <- res{key: k, val: val, ok: true}
 				}
 			}
 		}(w)
@@ -490,8 +559,17 @@ func (st *c09State) stress(writers, nkeys, per int) string {
 		// final value through the gateway
 		resp, err := st.rig.GW.Get(context.Background(), &hydrapb.GetRequest{Swamps: []*hydrapb.GetSwamp{{IslandID: 1, SwampName: st.swamp, Keys: []string{k}}}})
 		final := int64(-1)
-		if err == nil && resp != nil && len(resp.GetSwamps()) == 1 && len(resp.GetSwamps()[0].GetTreasures()) == 1 && resp.GetSwamps()[0].GetTreasures()[0].Int64Val != nil {
-			final = *resp.GetSwamps()[0].GetTreasures()[0].Int64Val
+		if err == nil && resp != nil && len(resp.GetSwamps()) == 1 && len(resp.GetSwamps()[0].GetTreasures()) == 1 {
+			switch tr := resp.GetSwamps()[0].GetTreasures()[0]; {
+			case tr.Int64Val != nil:
+				final = *tr.Int64Val
+			case tr.Uint32Val != nil:
+				final = int64(*tr.Uint32Val)
+			case tr.Uint64Val != nil:
+				final = int64(*tr.Uint64Val)
+			case tr.Float64Val != nil:
+				final = int64(*tr.Float64Val)
+			}
 		}
 		if final != int64(len(vs)) {
 			d := int64(len(vs)) - final
@@ -507,7 +585,8 @@ func (st *c09State) stress(writers, nkeys, per int) string {
 // ---------------------------------------------------------------- mixed histories + linearizability check
 
 type c09Op struct {
-	kind     string // set | inc | get
+	kind     string // set | seta (Overwrite=false) | setx (CreateIfNotExist=false) | del | inc | get
+	st       string // seta / setx / del: WROTE | UNCHANGED | NOT_FOUND | DELETED
 	arg      int64
 	resp     int64
 	absent   bool
@@ -522,6 +601,9 @@ func (o c09Op) String() string {
 	if o.kind == "set" {
 		r = "ok"
 	}
+	if o.st != "" {
+		r = o.st
+	}
 	return fmt.Sprintf("%s(%d)->%s@[%d,%d]", o.kind, o.arg, r, o.inv, o.ret)
 }
 
@@ -530,6 +612,21 @@ func c09Apply(o c09Op, present bool, v int64) (bool, bool, int64) {
 	switch o.kind {
 	case "set":
 		return true, true, o.arg
+	case "seta":
+		if !present {
+			return o.st == "WROTE", true, o.arg
+		}
+		return o.st == "UNCHANGED", present, v
+	case "setx":
+		if !present {
+			return o.st == "NOT_FOUND", present, v
+		}
+		return o.st == "WROTE", true, o.arg
+	case "del":
+		if !present {
+			return o.st == "NOT_FOUND", false, 0
+		}
+		return o.st == "DELETED", false, 0
 	case "inc":
 		nv := o.arg
 		if present {
@@ -583,6 +680,7 @@ func c09Linearizable(h []c09Op) bool {
 }
 
 func (st *c09State) mixed(writers, per int, seed int64) string {
+	st.setInt("z", 0) // keeps the swamp alive across deletes of "x"
 	var clock atomic.Int64
 	hist := make([][]c09Op, writers)
 	var wg sync.WaitGroup
@@ -593,10 +691,16 @@ func (st *c09State) mixed(writers, per int, seed int64) string {
 			rng := rand.New(rand.NewSource(seed + int64(w)*7919))
 			for i := 0; i < per; i++ {
 				o := c09Op{}
-				switch r := rng.Intn(10); {
+				switch r := rng.Intn(20); {
 				case r < 3:
 					o.kind, o.arg = "set", int64(100*(w+1)+i)
 				case r < 7:
+					o.kind, o.arg = "seta", int64(100*(w+1)+i)
+				case r < 9:
+					o.kind, o.arg = "setx", int64(100*(w+1)+i)
+				case r < 11:
+					o.kind = "del"
+				case r < 16:
 					o.kind, o.arg = "inc", int64(1+rng.Intn(3))
 				default:
 					o.kind = "get"
@@ -605,6 +709,16 @@ func (st *c09State) mixed(writers, per int, seed int64) string {
 				switch o.kind {
 				case "set":
 					st.setInt("x", o.arg)
+				case "seta":
+					o.st = c09sStatus(st, true, false, o.arg)
+				case "setx":
+					o.st = c09sStatus(st, false, true, o.arg)
+				case "del":
+					o.st = "NOT_FOUND"
+					if resp, err := st.rig.GW.Delete(context.Background(), &hydrapb.DeleteRequest{Swamps: []*hydrapb.DeleteRequest_SwampKeys{{IslandID: 1, SwampName: st.swamp, Keys: []string{"x"}}}}); err == nil && resp != nil &&
+						len(resp.GetResponses()) == 1 && len(resp.GetResponses()[0].GetKeyStatuses()) == 1 {
+						o.st = resp.GetResponses()[0].GetKeyStatuses()[0].GetStatus().String()
+					}
 				case "inc":
 					resp, err := st.rig.GW.IncrementInt64(context.Background(), &hydrapb.IncrementInt64Request{IslandID: 1, SwampName: st.swamp, Key: "x", IncrementBy: o.arg})
 					if err == nil && resp != nil {
@@ -683,8 +797,23 @@ func c09Run(in *bufio.Scanner, w *bufio.Writer) {
 				ev.id, _ = args[1].(int64)
 			}
 			st.events <- ev
+		case "gw.set.tested":
+			if st.setx {
+				c09s.hook(th)
+			}
 		case "inc.fetched":
+			if st.setx {
+				c09s.hook(th)
+				return
+			}
 			if st.stopAt.Load().(string) != th {
+				return
+			}
+			fallthrough
+		case "save.released":
+			// immediate-write mode: the call has released the guard and is about to run the file writer; it starts
+			// only when no earlier call's writer is still pending (settle releases it), so the order is deterministic
+			if st.setx {
 				return
 			}
 			fallthrough
@@ -707,7 +836,9 @@ func c09Run(in *bufio.Scanner, w *bufio.Writer) {
 			continue
 		}
 		if f[0] == "case" {
+			c09s.endCase()
 			st.endCase()
+			st.setx = false
 			st.dead = false
 			st.cfg = ""
 			mode := ""
@@ -718,18 +849,30 @@ func c09Run(in *bufio.Scanner, w *bufio.Writer) {
 			for _, c := range c09Cfgs {
 				ok = ok || c == st.cfg
 			}
-			if !ok || (mode != "sched" && mode != "stress" && mode != "mixed") {
+			if !ok || (mode != "sched" && mode != "stress" && mode != "mixed" && mode != "setx") {
 				st.dead = true
 				fmt.Fprintln(w, line)
 				continue
 			}
 			st.swamp = name.New().Sanctuary(c09Sanct(st.cfg)).Realm("r" + st.runTag).Swamp("c" + f[1]).Get()
+			if mode == "setx" {
+				st.free.Store(true)
+				if !st.setInt("z", 0) {
+					st.dead = true
+				}
+				st.setx = true
+				st.free.Store(false)
+			}
 			if mode == "sched" {
 				// preset k = 0 and a second key; learn the record's guard from the hook events of that Set
 				st.free.Store(false)
 				st.threads.Register("init")
 				if !st.setInt("z", 0) || !st.setInt("k", 5) {
-					st.dead = true
+					// a loaded machine: once more before giving the case up
+					time.Sleep(300 * time.Millisecond)
+					if !st.setInt("z", 0) || !st.setInt("k", 5) {
+						st.dead = true
+					}
 				}
 				st.threads.Unregister()
 				st.g = nil
@@ -756,6 +899,8 @@ func c09Run(in *bufio.Scanner, w *bufio.Writer) {
 			continue
 		}
 		switch {
+		case st.setx:
+			fmt.Fprintln(w, c09s.line(st, f))
 		case f[0] == "step" && len(f) == 2:
 			fmt.Fprintln(w, st.step(f[1], false))
 		case f[0] == "fetch" && len(f) == 2:
@@ -801,5 +946,6 @@ func c09Run(in *bufio.Scanner, w *bufio.Writer) {
 		}
 		w.Flush()
 	}
+	c09s.endCase()
 	st.endCase()
 }
